@@ -746,6 +746,7 @@ package engine
 //@   at-call (*Promise).child requires[refindable] called(found) && found ==>
 //@       len(stack) >= 1 && stack[len(stack) - 1] == argof(found, 1) && len(argof(found, 1).delayed) == 0
 //@   at-call (*promiseStack).popUntil requires[cuts-to-parent] a1 == popped.cutParent && a1 != nil
+//@   at-store Promise.cutParent requires[a-cut-is-marked-done-only-after-the-stack-was-cut-down-to-its-parent-whatever-state-the-parent-is-in] v == nil && called(found)
 //@   at-call (*promiseStack).recover requires[exact-error] a1 == popped.err && len(popped.delayed) == 0
 //@   never-calls dynamic
 //@   bind cerr = context.Context.Err#1
